@@ -138,9 +138,9 @@ def _init_unproved():
 
 
 _init_unproved()
-NAME_MODES = ['str', 'int0', 'empty0']
+NAME_MODES = ['str', 'int0', 'empty0', 'person']
 REQUIRED_COUNTERS = (['score_fraction_counts', 'score_large_factor', 'scale', 'near_tie', 'equal_rational', 'beyond_2^53', 'modelled',
-                      'lr_equal_remainders', 'threshold_boundary', 'coef_tie', 'coef_as_decimal', 'coef_as_float', 'exact_half_or_quota', 'odd_total_half', 'even_factor']
+                      'lr_equal_remainders', 'approval_later_seat_level', 'threshold_boundary', 'coef_tie', 'coef_as_decimal', 'coef_as_float', 'exact_half_or_quota', 'odd_total_half', 'even_factor']
                      + ['m:' + f for f in PROVED_FAMILIES])      # every proved family is also run through its Lean model
 RULE = ('every scale-free evaluator family of the quantifier (plurality, divisor methods, largest remainder with exact quotas, '
         'Condorcet methods, STV-Gregory with Hare quota, Bucklin/Oklahoma, positional, approval, score, majority judgment, STAR, '
@@ -217,6 +217,15 @@ def generate(rng, tier):
                 k = (BIG_MULTIPLIERS + [10 ** 30 + 570, 10 ** 6])[t % (len(BIG_MULTIPLIERS) + 2)]
                 yield {'op': 'scale', 'family': f.name, 'prof': [[i, str(vals[i])] for i in order], 'n': 1, 'k': str(k),
                        '_tags': ['scale', 'threshold_boundary'] + (['beyond_2^53'] if k > 2 ** 53 else [])}
+    # sequential / proportional approval: a later seat that is an exact tie (or a two-vote race) between a reweighted ballot group and
+    # an untouched one, at factors where a float weight is off by far more than the margin
+    for f in F:
+        if f.name in ('approval_spav', 'approval_pav'):
+            for t in range(16 if tier == 'quick' else 160):
+                prof = fam_mod.gen_approval_level(rng, rng.randint(3, 4))
+                k = (BIG_MULTIPLIERS + [3 * 10 ** 40 + 1, 2 ** 60 + 100, 10 ** 6, 7])[t % (len(BIG_MULTIPLIERS) + 4)]
+                yield {'op': 'scale', 'family': f.name, 'prof': prof, 'n': 2, 'k': str(k),
+                       '_tags': ['scale', 'approval_later_seat_level'] + (['beyond_2^53'] if k > 2 ** 53 else [])}
     # exactly half is not a majority, exactly the quota is the quota - at magnitudes where a float quota is off by 10^9:
     # Bucklin/Oklahoma: the first choice of exactly half of the voters, everybody's second choice wins in round 2;
     # STV-Gregory-Hare: a candidate holding exactly the Hare quota on first preferences
